@@ -67,6 +67,71 @@ func buildAlphabet() []rune {
 	return classAlphabet
 }
 
+// classSig is the combination of classes the segmenter's rules can distinguish.
+type classSig struct {
+	lb, gb, wb, cat *unicode.RangeTable
+	ea, pict        bool
+}
+
+func sigOf(r rune) classSig {
+	return classSig{ucd.LookupLineBreakClass(r), ucd.LookupGraphemeBreakClass(r), ucd.LookupWordBreakClass(r), ucd.LookupType(r),
+		unicode.Is(ucd.LargeEastAsian, r), unicode.Is(ucd.Extended_Pictographic, r)}
+}
+
+var partnerCache = map[[2]int][]rune{}
+
+// collisionPartners returns runes that agree with base on their low `bits` bits but differ from
+// it (and from each other) in class: what a lookup memo indexed or tagged by a truncated code
+// point confuses with base. At most 8, spread over the planes.
+func collisionPartners(base rune, bits int) []rune {
+	key := [2]int{int(base), bits}
+	if p, ok := partnerCache[key]; ok {
+		return p
+	}
+	seen := map[classSig]bool{sigOf(base): true}
+	var out []rune
+	step := rune(1) << uint(bits)
+	for r := base & (step - 1); r <= 0x10FFFF && len(out) < 8; r += step {
+		if r == base || (r >= 0xD800 && r < 0xE000) {
+			continue
+		}
+		if sg := sigOf(r); !seen[sg] {
+			seen[sg] = true
+			out = append(out, r)
+		}
+	}
+	partnerCache[key] = out
+	return out
+}
+
+// collisionBases: runes whose aliases are searched (common text plus rule-relevant classes).
+var collisionBases = []rune(" a1.,-\n(\"'%:ab e") // completed at first use from the alphabet
+
+// genCollisionText: a text that mixes a few base runes with their truncation aliases
+// (same low 8, 10, 12 or 16 bits), so that a per-object or per-package memo keyed by part of
+// the code point serves one the classes of the other — within one text or across Init calls.
+func genCollisionText(r *kernel.Rand, n, bits int) []rune {
+	alpha := buildAlphabet()
+	var pool []rune
+	for k := 0; k < 3; k++ {
+		base := kernel.Pick(r, collisionBases)
+		if r.Chance(0.3) {
+			base = kernel.Pick(r, alpha)
+		}
+		pool = append(pool, base)
+		pool = append(pool, collisionPartners(base, bits)...)
+	}
+	out := make([]rune, 0, n)
+	for i := 0; i < n; i++ {
+		if r.Chance(0.8) {
+			out = append(out, kernel.Pick(r, pool))
+		} else {
+			out = append(out, kernel.Pick(r, alpha))
+		}
+	}
+	return out
+}
+
 func genClassText(r *kernel.Rand, n int) []rune {
 	alpha := buildAlphabet()
 	common := []rune(" aA1.,-\n\r‍́(\"'/:%")
@@ -92,6 +157,11 @@ func (e *sgEngine) Generate(seed uint64, tier string, run int) (json.RawMessage,
 	sizes := []int{0, 1, 2, 3, 5, 8, 16, 33, 64}
 	pattern := rk.Intn(3)
 	lastLen := 0
+	// swarm knob: 20% of the runs draw their texts from truncation aliases (see genCollisionText)
+	collideBits := 0
+	if rk.Chance(0.2) {
+		collideBits = kernel.Pick(rk, []int{8, 8, 10, 12, 16, 16})
+	}
 	for len(c.Ops) < n {
 		switch rg.Weighted([]int{3, 3, 6}) {
 		case 0:
@@ -108,6 +178,9 @@ func (e *sgEngine) Generate(seed uint64, tier string, run int) (json.RawMessage,
 			}
 			lastLen = l
 			t := genClassText(rg, l)
+			if collideBits > 0 {
+				t = genCollisionText(rg, l, collideBits)
+			}
 			if rg.Chance(0.5) && l > 0 {
 				// begin with a rune whose treatment depends on the look-behind state
 				pre := kernel.Pick(rg, [][]rune{{0x1F1F7}, {0x1F1F7, 0x1F1EB}, {'3'}, {',', '5'}, {0x200D, 0x1F469}, {0x301}, {' ', 'a'}, {')'}, {'\'', 'b'}, {'"', 0x5D1}, {0x1F469}})
